@@ -39,6 +39,7 @@ def floors(m, tier):
             "falsy stored values read": (c.get("falsy_values", 0), u),
             "GetFromAll comparisons": (c.get("all_calls", 0), u * k // 4),
             "types without getter": (c.get("all_no_getter", 0), u),
+            "universes with an entity whose sidecar name would be too long": (c.get("universes_with_a_long_name", 0), u // 8),
             "GetFromAll(non-default config) comparisons (second data configuration)": (c.get("all_calls_non_default_config", 0), u * k // 40),
             "get_one/get_data/get_attr": (c.get("single_calls", 0), u * 5)}
 
@@ -69,8 +70,11 @@ def write_sidecars(lab, rng, conf):
                 for k in list(data):
                     if rng.random() < 0.15:
                         data[k] = rng.choice([0, False, "", [], {}, None])      # falsy stored values are values too
-                with open(dp, "w") as f:
-                    json.dump(data, f)
+                try:
+                    with open(dp, "w") as f:
+                        json.dump(data, f)
+                except OSError:
+                    continue        # (the sidecar of this entity cannot exist - e.g. its name would be too long: it simply has no data)
                 st[dp] = data
         store[c] = st
     return store
@@ -195,6 +199,22 @@ def worker(args):
     import random
     for u in range(args["universes"]):
         ents = lab.new_universe(n_leaves=rng.choice([8, 20, 35]))
+        if rng.random() < 0.3:
+            # an entity whose (legal) folder name is so long that its sidecar NAME cannot exist: found by the Finder, so it has a record
+            long_ent = None
+            for e in sorted(lab.exists[lab.default_config]):
+                t_ = lab.model.natural(e)
+                if t_ is not None and lab.vocab.info[t_.name][t_.nseg - 1]["open"] and t_.keys[-1] != lab.model.leaf_keys.get(lab.model.basetype(t_.name)):
+                    long_ent = "/".join(e.split("/")[:-1] + ["z" * 250])
+                    break
+            if long_ent and lab.model.natural(long_ent) is not None:
+                try:
+                    lab.trees.materialise([long_ent])
+                    lab.refresh_exists([long_ent])
+                    ents = sorted(set(ents) | {long_ent})
+                    rec.count("universes_with_a_long_name")
+                except OSError:
+                    pass
         data_seed = rng.randrange(10 ** 9)
         store = write_sidecars(lab, random.Random(data_seed), conf)
         uid = "%s-%d" % (args.get("seed"), u)
